@@ -8,14 +8,21 @@ func ExtractLicenses(expression string) ([]string, error) {
 		return nil, err
 	}
 
-	expanded := node.expand(true)
 	licenses := make([]string, 0)
-	allLicenses := flatten(expanded)
-	for _, licenseNode := range allLicenses {
+	for _, licenseNode := range node.terms(nil) {
 		licenses = append(licenses, *licenseNode.reconstructedLicenseString())
 	}
 
 	licenses = removeDuplicateStrings(licenses)
 
 	return licenses, nil
+}
+
+// terms appends every license and license reference of the expression tree to terms, left to
+// right.  (Expanding the expression first would repeat each of them once per alternative.)
+func (n *node) terms(terms []*node) []*node {
+	if n.isExpression() {
+		return n.right().terms(n.left().terms(terms))
+	}
+	return append(terms, n)
 }
